@@ -278,8 +278,8 @@ func scnC16L1(rc *RunCtx) {
 	n := 1 + t.Choose(3, "n")
 	// timeline in whole seconds; cleanup cut-offs at x.5 s so that no age ever equals a cut-off
 	type arrival struct {
-		at   int // seconds
-		op   HOp
+		at int // seconds
+		op HOp
 	}
 	var tl []arrival
 	type cl struct{ at, cutAbs int } // cut-off absolute in half-seconds (2*s+1)
